@@ -69,6 +69,11 @@ pub struct CaseOut {
     pub feats: Vec<(&'static str, u64)>,
     /// the case turned out to be outside the property's domain
     pub skipped: bool,
+    /// (site, interleaving signature) of hooked calls
+    pub sigs: Vec<(u64, u64)>,
+    /// free-form digest of results, compared across configurations by the driver
+    /// (key, value, per_config): per_config results may differ between CPU masks
+    pub digest: Vec<(u64, u64, bool)>,
 }
 
 pub const NOBUCKET: u64 = u64::MAX;
@@ -183,6 +188,7 @@ pub struct Shard {
     pub samples: Vec<String>,
     pub viol_cases: u64,
     pub known_cases: u64,
+    pub sigs: BTreeMap<u64, std::collections::BTreeSet<u64>>,
 }
 
 impl Shard {
@@ -199,6 +205,24 @@ impl Shard {
         for &(k, b) in &o.feats {
             *self.feats.entry((k, b)).or_insert(0) += 1;
         }
+        for &(site, sig) in &o.sigs {
+            let e = self.sigs.entry(site).or_default();
+            if e.len() < 4096 {
+                e.insert(sig);
+            }
+        }
+    }
+
+    pub fn sigs_json(&self) -> String {
+        let parts: Vec<String> = self
+            .sigs
+            .iter()
+            .map(|(site, set)| {
+                let xs: Vec<String> = set.iter().map(|x| format!("\"{x:x}\"")).collect();
+                format!("\"{site}\":[{}]", xs.join(","))
+            })
+            .collect();
+        format!("{{{}}}", parts.join(","))
     }
 
     pub fn feats_json(&self) -> String {
